@@ -114,7 +114,7 @@ def gen_graph_scripts(work, seed, tier):
         for pi in range(nprobe):
             h = stable_hash("%s|%s|%s|%d|%d" % (c, path, a, pi, seed))
             cfg = script_cfg(tokenAuth, smartCard, h)
-            user = "user1" if cfg["auth"] == "openid" else ("1" if cfg["auth"] == "local" else "nuser1")
+            user = "user1" if cfg["auth"] == "openid" else ("7" if cfg["auth"] == "local" else "nuser1")
             tun = dict(H_A, user=user)
             if h % 11 == 0 and cfg["sel"] != "roundrobin":
                 tun.update({"hostPort": "PD", "entry": ["H1", ":", "PD"]})   # allowed but nothing listens
@@ -146,7 +146,7 @@ def gen_random_scripts(seed, n, maxlen=14):
         tokenAuth, smartCard = rng.random() < 0.6, rng.random() < 0.3
         h = rng.getrandbits(30)
         cfg = script_cfg(tokenAuth, smartCard, h)
-        user = "user1" if cfg["auth"] == "openid" else ("1" if cfg["auth"] == "local" else "nuser1")
+        user = "user1" if cfg["auth"] == "openid" else ("7" if cfg["auth"] == "local" else "nuser1")
         tun = dict(H_A, user=user)
         caps = (2 if tokenAuth else 0) | (1 if smartCard and rng.random() < 0.5 else 0)
         if not tokenAuth and not smartCard:
